@@ -19,7 +19,7 @@ RULES = {
     'R5': 'directive alphabet: dynamic formatter n f l p t T b g, static formatter P N H; "-" and digits consumed before the switch; unknown letters take the default branch',
     'R6': 'qb_log_real_va_: the buffer handed to cs_format has the capacity passed as maxlen on the stack and the heap branch',
 }
-FLOORS = {'R1': 14, 'R2': 6, 'R3': 4, 'R4': 3, 'R5': 4, 'R6': 3}
+FLOORS = {'R1': 14, 'R2': 6, 'R3': 3, 'R4': 3, 'R5': 4, 'R6': 3}
 
 MLL = 't->max_line_length'
 
